@@ -360,8 +360,8 @@ def all_cases():
 
 def plan(tier, seed, excl):
     q = tier == 'quick'
-    t = [('table', {'shard': i, 'of': 16, 'full': not q}) for i in range(16)]
-    t += [('random', {'shard': i, 'n': 800 if q else 15000}) for i in range(6)]
+    t = [('table', {'shard': i, 'of': 16, 'full': True}) for i in range(16)]
+    t += [('random', {'shard': i, 'n': 3000 if q else 15000}) for i in range(8)]
     t += [('atheris', {'shard': i, 'runs': 5000 if q else 100000, 'empty_corpus': i == 0}) for i in range(2 if q else 4)]
     return t
 
